@@ -222,6 +222,8 @@ func c20Program(seed uint64, steps int) *transcript {
 			src := *cur
 			enter(pool)
 			blob := ser.Serialize(nil, src)
+			// the bytes themselves are a result: the encoders are deterministic for a given mode
+			t.add(fmt.Sprintf("blob-mode%d", mode), []byte(fmt.Sprintf("%d:%016x", len(blob), gen.Hash64(blob))))
 			if r.Chance(1, 5) && len(blob) > 16 {
 				// a damaged copy first: failed decodes must not poison what later calls share
 				// (damage at the very end: the error comes late, after the string and message blocks
